@@ -1006,6 +1006,11 @@ class SyncObj(object):
                         # Everything in the snapshot was already applied here, nothing was loaded
                         self.__sendNextNodeIdx(node, nextNodeIdx=staleSnapshotIdx + 1, success=True)
                         lastMatchedIdx = staleSnapshotIdx
+                elif not serialized[2]:
+                    # The sender drops a connection on which it has read nothing for connectionTimeout.
+                    # Answer every chunk, otherwise a transfer that takes longer than that is cut
+                    # by the sender itself and restarted forever.
+                    self.__transport.send(node, {'type': 'transmission_progress'})
 
             # The commit index may only cover entries that are known to match the leader's log
             if lastMatchedIdx is not None and leaderCommitIndex > self.__raftCommitIndex:
